@@ -60,8 +60,8 @@ class TrackLoop(asyncio.SelectorEventLoop):
 def site_class(desc, data_files=()):
     """what kind of generator a leaked generator is, from its code object"""
     name, first, filename = desc
-    if filename in data_files:
-        return "data"
+    if filename in data_files or filename.replace("\\", "/").endswith("jinja2/filters.py"):
+        return "data"          # harness data generators; async generators made by async filters are values, not template machinery
     if re.fullmatch(r"t_\d+", name) and first == ("fiter",):
         return "loop-filter"
     if name == "root":
